@@ -575,6 +575,12 @@ class BodyPartReader:
         else:
             line = await self._content.readline()
 
+        if not line:
+            # The stream ended inside the part (no closing boundary): the part
+            # ends with it, MultipartReader.next() rejects the missing boundary.
+            self._at_eof = True
+            return b""
+
         if line.startswith(self._boundary):
             # the very last boundary may not come with \r\n,
             # so set single rules for everyone
